@@ -272,8 +272,10 @@ func runC20(t testingT, p *Program) *Result {
 					if ev.Op != "put" {
 						continue
 					}
-					// a record of another owner may be replaced only if it was expired at this instant
-					if ev.Prev != nil && ev.Prev.Owner != ev.Owner && ev.At.Before(ev.Prev.ExpiresAt) {
+					// a record of another owner may be replaced only if it was expired at this
+					// instant. A lease is unexpired through ExpiresAt inclusive: that is what its
+					// holder is told by the lease API (Lease.IsExpired: now after ExpiresAt).
+					if ev.Prev != nil && ev.Prev.Owner != ev.Owner && !ev.At.After(ev.Prev.ExpiresAt) {
 						fail("takeover-of-live-lease", "%s replaced the lease of %s (generation %d) at +%v although it expires at +%v",
 							ev.Owner, ev.Prev.Owner, ev.Prev.Generation, ev.At.Sub(start), ev.Prev.ExpiresAt.Sub(start))
 					}
@@ -282,7 +284,7 @@ func runC20(t testingT, p *Program) *Result {
 						if oc.id == ev.Client || oc.lease == nil {
 							continue
 						}
-						if ev.At.Before(oc.lease.ExpiresAt) && ev.Owner != oc.lease.Owner {
+						if !ev.At.After(oc.lease.ExpiresAt) && ev.Owner != oc.lease.Owner {
 							fail("two-holders", "%s obtained the lease at +%v while %s still holds generation %d until +%v",
 								ev.Owner, ev.At.Sub(start), oc.lease.Owner, oc.lease.Generation, oc.lease.ExpiresAt.Sub(start))
 						}
